@@ -136,10 +136,99 @@ def splitOnChar (c : Char) : List Char → List (List Char)
     | [] => [[x]]
     | h :: t => if x = c then [] :: h :: t else (x :: h) :: t
 
+/-! ### URI references as `uriparse` reads and prints them
+
+`URIReference::try_from(text)` followed by `to_string()` (what libcnb-data's package.toml codec does) is **not** the
+identity on every valid reference: a registered scheme is lower-cased, a port is re-printed as a number (leading zeros
+and an empty port disappear), and an authority followed by an empty path gains a `/`. `uriRespell` is that round trip
+(`none`: the text is rejected). IPv6 literals are kept as written here (the real printer re-canonicalises them). -/
+
+def isUnreserved (c : Char) : Bool := c.isAlphanum || c = '-' || c = '.' || c = '_' || c = '~'
+def isSubDelim (c : Char) : Bool := "!$&'()*+,;=".toList.contains c
+def isHexChar (c : Char) : Bool := c.isDigit || ('a' ≤ c && c ≤ 'f') || ('A' ≤ c && c ≤ 'F')
+
+def pctOK : List Char → Bool
+  | [] => true
+  | '%' :: a :: b :: r => isHexChar a && isHexChar b && pctOK r
+  | '%' :: _ => false
+  | _ :: r => pctOK r
+
+def uriChars (extra : List Char) (cs : List Char) : Bool :=
+  pctOK cs && cs.all (fun c => isUnreserved c || isSubDelim c || c = '%' || extra.contains c)
+
+/-- the part before the first of the stop characters, and the rest starting at that character -/
+def splitAtAny (stops : List Char) : List Char → List Char × List Char
+  | [] => ([], [])
+  | c :: r => if stops.contains c then ([], c :: r) else let p := splitAtAny stops r; (c :: p.1, p.2)
+
+def validScheme : List Char → Bool
+  | [] => false
+  | c :: r => c.isAlpha && r.all (fun x => x.isAlphanum || x = '+' || x = '-' || x = '.')
+
+/-- schemes of uriparse's registry that the corpus uses (the registry itself is not modelled) -/
+def registeredSchemes : List String := ["http", "https", "ftp", "file", "urn", "mailto"]
+
+def lowerChars (cs : List Char) : List Char := cs.map Char.toLower
+
+def respellScheme (cs : List Char) : List Char :=
+  if registeredSchemes.contains (String.ofList (lowerChars cs)) then lowerChars cs else cs
+
+/-- `host[:port]` → respelled, or `none` -/
+def respellHostPort (hp : List Char) : Option (List Char) :=
+  let split : List Char × List Char :=
+    match hp with
+    | '[' :: _ => let p := splitAtAny [']'] hp; (p.1 ++ p.2.take 1, p.2.drop 1)
+    | _ => splitAtAny [':'] hp
+  let host := split.1
+  let hostOK := match host with
+    | '[' :: _ => host.all (fun c => isHexChar c || c = ':' || c = '[' || c = ']' || c = '.')
+    | _ => uriChars [] host
+  if !hostOK then none else
+  match split.2 with
+  | [] => some host
+  | ':' :: ds =>
+    if ds.isEmpty then some host
+    else if ds.all Char.isDigit && digitsVal ds < 65536 then some (host ++ ':' :: (toString (digitsVal ds)).toList)
+    else none
+  | _ => none
+
+def respellAuthority (auth : List Char) : Option (List Char) :=
+  let p := splitAtAny ['@'] auth
+  match p.2 with
+  | '@' :: hp => if uriChars [':'] p.1 then (respellHostPort hp).map (fun h => p.1 ++ '@' :: h) else none
+  | _ => respellHostPort auth
+
+def uriRespellChars (s : List Char) : Option (List Char) :=
+  -- scheme
+  let pre := splitAtAny [':', '/', '?', '#'] s
+  let sb : Option (List Char × List Char) :=
+    match pre.2 with
+    | ':' :: body => if validScheme pre.1 then some (respellScheme pre.1 ++ [':'], body) else none
+    | _ => some ([], s)
+  match sb with
+  | none => none
+  | some (scheme, body) =>
+    -- query and fragment
+    let hq := splitAtAny ['?', '#'] body
+    let qfOK : Bool :=
+      match hq.2 with
+      | '?' :: r => let qf := splitAtAny ['#'] r; uriChars [':', '@', '/', '?'] qf.1 && uriChars [':', '@', '/', '?'] (qf.2.drop 1)
+      | '#' :: r => uriChars [':', '@', '/', '?'] r
+      | _ => true
+    if !qfOK then none else
+    match hq.1 with
+    | '/' :: '/' :: r =>
+      let ap := splitAtAny ['/'] r
+      if !uriChars [':', '@', '/'] ap.2 then none else
+      (respellAuthority ap.1).map (fun a => scheme ++ '/' :: '/' :: a ++ (if ap.2.isEmpty then ['/'] else ap.2) ++ hq.2)
+    | path => if uriChars [':', '@', '/'] path then some (scheme ++ path ++ hq.2) else none
+
+def uriRespell (s : String) : Option String := (uriRespellChars s.toList).map String.ofList
+
 def StrV.valid : StrV → String → Bool
   | .plain, _ => true
   | .path, _ => true
-  | .uri, _ => true   -- uriparse's grammar is outside the model; the corpus uses valid references only
+  | .uri, s => (uriRespell s).isSome
   | .buildpackId, s =>
       let cs := s.toList
       !cs.isEmpty && cs.all (fun c => isAlnum c || c = '.' || c = '/' || c = '-') && s ≠ "app" && s ≠ "config" && s ≠ "sbom"
@@ -168,6 +257,11 @@ def StrV.norm : StrV → String → String
       | a :: rest => toString (digitsVal a) ++ "." ++ toString (digitsVal (List.intercalate ['.'] rest))
       | [] => s
   | _, s => s
+
+/-- the decoded form as the code really produces it: a URI reference is re-printed by `uriparse` -/
+def StrV.serdeNorm : StrV → String → String
+  | .uri, s => (uriRespell s).getD s
+  | v, s => v.norm s
 
 /-! ## reading -/
 
@@ -273,7 +367,7 @@ mutual
 /-- `buf = true` inside an `untagged` enum (serde buffers the value and re-reads it: an array longer than the struct is
 then an error, the table form of an enum is not accepted) -/
 def decodeSerde (buf : Bool) : Schema → TV → Except Err Val
-  | .str v, .str s => if v.valid s then .ok (.str (v.norm s)) else .error .invalid
+  | .str v, .str s => if v.valid s then .ok (.str (v.serdeNorm s)) else .error .invalid
   | .str (.oneOf vs), .tbl kvs => (match enumOfTable buf vs kvs with | some k => .ok (.str k) | none => .error .wrongKind)
   | .int, .int i => .ok (.int i)
   | .bool, .bool b => .ok (.bool b)
@@ -334,9 +428,11 @@ def noTblElem : List TV → Bool
 
 mutual
 /-- along the schema-directed walk of the document there is no array where a struct (table) is expected and no
-table where an enum (string) is expected: the document does not touch serde's two leniencies -/
+table where an enum (string) is expected, and every URI reference is spelled the way `uriparse` prints it: the
+document touches neither serde's two leniencies nor the URI respelling -/
 def lenientFree : Schema → TV → Bool
   | .str (.oneOf _), .tbl _ => false
+  | .str .uri, .str s => uriRespell s == some s || uriRespell s == none
   | .vec s, .arr xs => xs.all (lenientFree s)
   | .set (.oneOf _), .arr xs => noTblElem xs
   | .map _ s, .tbl kvs => kvs.all (fun kv => lenientFree s kv.2)
